@@ -28,6 +28,7 @@ ASSUMPTIONS = ["no trade threshold (C12)", "epsilon snap of |position| < 1e-7 is
 REQUIRED = ["C03:same-request-other-account", "C03:chain-others-flat", "C03:target-weight-reached", "C03:target-contracts-reached", "C03:untargeted-closed",
             "C03:frictionless-weights", "C03:frictionless-nlv-unchanged", "C03:second-rebalance-trades-nothing",
             "C03:frictionless-contracts-reached"]
+REQUIRED_CATS = ["requests-without-time", "same-request-two-accounts"]
 REQUIRED_HITS = ["Broker.rebalance", "Rebalancing.make_trades"]
 TECHNIQUE = "runtime monitoring: post-conditions at the Broker.rebalance boundary against an independent ledger"
 LEVEL_TEXT = ("Exploration. The real Broker.rebalance is driven from thousands of generated prior holdings and targets; after each "
@@ -147,6 +148,22 @@ def frictionless(ctx):
                 ctx.check("C03:same-request-other-account", abs(h2.get(c, 0.0) - x) <= 8 * 2.3e-16 * max(1, abs(x), abs(prior.get(c, 0.0))),
                           contract=c.symbol, got=h2.get(c, 0.0), want=x)
         ctx.cat("same-request-two-accounts")
+    if chain is None and rng.random() < 0.3:
+        # the same target requested again WITHOUT a time (the request stamps itself with the current time), twice:
+        # both are accepted, neither trades anything of economic size, both are recorded
+        n_rec = len(b.track_record)
+        try:
+            tot = 0.0
+            for _ in range(2):
+                r3 = Rebalancing(keys, vals, measure=meas)
+                b.rebalance(r3)
+                tot += sum(abs(x.notional) for x in r3.trades)
+            ctx.check("C03:second-rebalance-trades-nothing", tot <= 1e-9 * gross and len(b.track_record) == n_rec + 2,
+                      traded=tot, nlv=n0, without_time=True, records=len(b.track_record) - n_rec)
+        except Exception as ex_:
+            ctx.check("C03:second-rebalance-trades-nothing", False, without_time=True, error=repr(ex_)[:200],
+                      records=len(b.track_record) - n_rec)
+        ctx.cat("requests-without-time")
     ctx.cat("frictionless:" + meas, "frictionless:history{}".format(nhist))
     ctx.nontrivial = nhist > 0 and (any(x < 0 or x > 1 for x in tgt) or
                                     len({gen.is_margined(c) for c in cs}) == 2)
